@@ -6,6 +6,7 @@ namespace val {
 
 struct TestExc : std::exception { int id; explicit TestExc(int i) : id(i) {} const char *what() const noexcept override { return "TestExc"; } };
 
+struct PlainExc { int id; };      // an exception type that is NOT derived from std::exception
 struct MoveOnly {
     int id;
     explicit MoveOnly(int i) : id(i) {}
